@@ -6,5 +6,6 @@ CONSTANTS
   SubOps = {"*", "+", "=", "AND", "OR"}
   Nest = {1}
   Lits = {}
+  Long = FALSE
 INVARIANTS Agree Fold ReparseStable
 CHECK_DEADLOCK FALSE
